@@ -463,7 +463,69 @@ func runSchedCase(c *h.Ctx, r *h.Report, cs schedCase) (disagreed bool) {
 	return disagreed
 }
 
+// genJunctionCase targets the replay/live junction: a reconnecting subscriber (Last-Event-ID =
+// some stored id, often the last one, or 'earliest'), registered concurrently with 1-2 publishes,
+// optionally right after a restart, with the publish placed between registration and the history
+// scan in a good share of the schedules.
+func genJunctionCase(rr *h.Rand) schedCase {
+	cs := schedCase{Kind: "bolt", Cap: h.Pick(rr, []int{2, 3, 1000}), Size: h.Pick(rr, []int{0, 0, 0, 1, 2})}
+	nextID := 1
+	var first schedPhase
+	hist := rr.Intn(4)
+	for k := 0; k < hist; k++ {
+		first.Pre = append(first.Pre, schedOp{Op: "dispatch", ID: nextID, Topic: 0})
+		nextID++
+	}
+	mk := func(restart bool) schedPhase {
+		ph := schedPhase{Restart: restart}
+		req := "e"
+		if nextID > 1 && rr.Chance(3, 4) {
+			req = h.Itoa(nextID - 1) // the last stored id
+			if rr.Chance(1, 3) {
+				req = h.Itoa(1 + rr.Intn(nextID-1))
+			}
+		}
+		ph.Subs = []schedSub{{Topics: []int{0}, Req: req}}
+		ph.Ops = []schedOp{{Op: "add", Sub: 0}, {Op: "dispatch", ID: nextID, Topic: 0}}
+		nextID++
+		if rr.Bool() {
+			ph.Ops = append(ph.Ops, schedOp{Op: "dispatch", ID: nextID, Topic: 0})
+			nextID++
+		}
+		if rr.Chance(1, 3) {
+			ph.Ops = append(ph.Ops, schedOp{Op: "recv", Sub: 0})
+		}
+		// the adder runs k steps (3 = just registered, before db.View), then a publisher runs to the end
+		k := h.Pick(rr, []int{3, 3, 3, 2, 4, 5, 1})
+		for i := 0; i < k; i++ {
+			ph.Schedule = append(ph.Schedule, 0)
+		}
+		for i := 0; i < 14; i++ {
+			ph.Schedule = append(ph.Schedule, 1)
+		}
+		for i := 0; i < 40; i++ {
+			ph.Schedule = append(ph.Schedule, rr.Intn(len(ph.Ops)))
+		}
+
+		return ph
+	}
+	if rr.Chance(1, 3) {
+		first.Ops = []schedOp{{Op: "list"}}
+		first.Schedule = []int{0}
+		cs.Phases = []schedPhase{first, mk(true)}
+	} else {
+		ph := mk(false)
+		ph.Pre = first.Pre
+		cs.Phases = []schedPhase{ph}
+	}
+
+	return cs
+}
+
 func genSchedCase(rr *h.Rand) schedCase {
+	if rr.Chance(1, 4) {
+		return genJunctionCase(rr)
+	}
 	cs := schedCase{Kind: h.Pick(rr, []string{"bolt", "bolt", "local"}), Cap: h.Pick(rr, []int{1, 2, 3, 1000})}
 	if cs.Kind == "bolt" && rr.Chance(1, 3) {
 		cs.Size = 1 + rr.Intn(3)
@@ -707,13 +769,31 @@ func schedOracles(sr *schedRun, obs string) (vs []h.Violation) {
 			}
 		}
 	}
-	// C15: after Close returned, every registered subscriber's stream is ended
+	// C15: after Close returned, every subscriber registered before the close BEGAN has its stream ended
+	// (a registration that overlaps the close is covered by neither clause of the property)
 	if f["closed"] == "1" {
+		closeFirst := -1
+		for _, t := range sr.traces {
+			if t.phase == lastPhase && t.op.Op == "close" && t.first >= 0 && (closeFirst < 0 || t.first < closeFirst) {
+				closeFirst = t.first
+			}
+		}
+		before := map[int]bool{}
+		for _, o := range last.Pre {
+			if o.Op == "add" {
+				before[o.Sub] = true
+			}
+		}
+		for _, t := range sr.traces {
+			if t.phase == lastPhase && t.op.Op == "add" && t.ret == "ok" && closeFirst >= 0 && t.end >= 0 && t.end < closeFirst {
+				before[t.op.Sub] = true
+			}
+		}
 		for _, id := range list(f["index"]) {
 			var si int
 			fmt.Sscan(id, &si)
-			if si < len(subs) && subs[si]["closed"] == "0" {
-				vs = append(vs, h.Violation{Key: "C15:registered-subscriber-not-ended-by-close", What: fmt.Sprintf("the transport is closed but subscriber %d, registered before, still has an open stream", si)})
+			if si < len(subs) && before[si] && subs[si]["closed"] == "0" {
+				vs = append(vs, h.Violation{Key: "C15:registered-subscriber-not-ended-by-close", What: fmt.Sprintf("the transport is closed but subscriber %d, registered before the close began, still has an open stream", si)})
 			}
 		}
 	}
